@@ -3,6 +3,7 @@ import numpy as np
 from lib import common as C, models as M
 
 GEN = ['BlockFacts']
+IMPORTS = ['C03/basis_product', 'C03/mul_den', 'C03/rs_matrix_den', 'C03/rmatmul_den', 'C03/add_den', 'C03/dense_add_den', 'C14/compose_is_block_product', 'C14/apply_is_block_matvec', 'C14/pack_unpack_index']
 TRUSTED = ['the partial-equilibrium nonlinear evaluation of each block (C02, C09)', 'H_U factorisation (C05)']
 ASSUMPTIONS = ['convergence of the quasi-Newton iteration (frozen steady-state Jacobian) is not proved; the contract is: returns only if the tolerance test held on the returned iterate',
                'second-order convergence to the linear impulse is checked numerically (scalar-case theorem not built)',
@@ -85,6 +86,37 @@ def check(rng, override=None):
     dev = max(np.abs(rn[k][:W] - rf[k][:W]).max() for k in ('k', 'c', 'y', 'p'))
     if dev > 1e-6:
         C.push(out, dict(what='nested solved block does not honour the distinct initial steady state (differs from the flat solution)', input=dict(kind='newton', ss_initial=True, nested=True), observed=float(dev), signature=dict(op='initial-ss-nested')))
+    # a model with a heterogeneous-agent block: passing the steady state itself as the initial steady state must change nothing (zero shock -> zero path),
+    # and a genuinely different initial steady state must start from ITS beginning-of-period distribution
+    from sequence_jacobian.examples import krusell_smith as ks
+    from sequence_jacobian import create_model
+    household = ks.hh.add_hetinputs([ks.income, ks.make_grids])
+    ksm = create_model([household, ks.firm, ks.mkt_clearing], name='KS')
+    if True:
+        calk = {'eis': 1.0, 'delta': 0.025, 'alpha': 0.11, 'rho': 0.966, 'sigma': 0.5, 'L': 1.0, 'nS': 2, 'nA': 12, 'amax': 200, 'beta': 0.98, 'Z': 0.9}
+        Tk = 12
+        ok_opts = {'KS': dict(verbose=False, maxit=40, tol=1e-9)}
+        ssA = ksm.solve_steady_state(dict(calk), {'K': (2.9, 4.5)}, ['asset_mkt'], solver='brentq')
+        ssB = ksm.solve_steady_state(dict(calk, Z=0.88), {'K': (2.9, 4.5)}, ['asset_mkt'], solver='brentq')
+        n += 1
+        r_same = ksm.solve_impulse_nonlinear(ssA, ['K'], ['asset_mkt'], {'Z': np.zeros(Tk)}, ss_initial=ssA, options=ok_opts)
+        dev = max(float(np.abs(r_same[k]).max()) for k in ('K', 'C', 'A'))
+        if dev > 1e-7:
+            C.push(out, dict(what='with a heterogeneous-agent block, passing the steady state itself as ss_initial produces a non-zero transition for a zero shock', input=dict(kind='newton', model='KS', ss_initial='same'), observed=dev,
+                             signature=dict(op='initial-ss-het', case='same')))
+        n += 1
+        r_diff = ksm.solve_impulse_nonlinear(ssA, ['K'], ['asset_mkt'], {'Z': np.zeros(Tk)}, ss_initial=ssB, options=ok_opts)
+        hh = household.name
+        Pi, DbegB, a_grid = ssB.internals[hh]['Pi'], ssB.internals[hh]['Dbeg'], ssA.internals[hh]['a_grid']
+        # date 0: capital in place is yesterday's (initial steady state) assets: K_{-1} enters production, and beginning-of-period assets integrate Dbeg of the INITIAL steady state
+        A_carry = float(np.vdot(DbegB, np.broadcast_to(a_grid, DbegB.shape)))
+        if abs(A_carry - ssB['A']) > 1e-6 or abs((r_diff['Y'][0] + ssA['Y']) - ssA['Z'] * ssB['K'] ** calk['alpha'] * calk['L'] ** (1 - calk['alpha'])) > 1e-7:
+            C.push(out, dict(what='with a distinct initial steady state, date-0 output is not produced with the initial steady state capital', input=dict(kind='newton', model='KS', ss_initial='different'), signature=dict(op='initial-ss-het', case='Y0')))
+        got_int = ksm.impulse_nonlinear(ssA, {'Z': np.zeros(Tk), 'K': r_diff['K']}, ss_initial=ssB, internals=[hh])
+        Dbeg0 = got_int.internals[hh]['Dbeg'][0] + ssA.internals[hh]['Dbeg']
+        if np.abs(Dbeg0 - DbegB).max() > 1e-10:
+            C.push(out, dict(what='with a distinct initial steady state the date-0 beginning-of-period distribution is not that of the initial steady state', input=dict(kind='newton', model='KS', ss_initial='different'),
+                             observed=float(np.abs(Dbeg0 - DbegB).max()), signature=dict(op='initial-ss-het', case='Dbeg0')))
     # a LINEAR model (targets affine in the unknowns): the nonlinear solution is the linear impulse (one exact Newton update -- theorem C06.2)
     lm = M.write_linear_models('c06lin', [[dict(name='a', ins=['x', 'z'], outs={'y': {'x': (2, -1), 'z': 1}}),
                                            dict(name='b', ins=['y', 'x', 'z'], outs={'res': {'y': 1, 'x': (-3, 0), 'z': (1, 1)}})]])
